@@ -44,14 +44,16 @@ _MORE = {
             "contract-based deductive verification (AST->VC, z3/cvc5) + Lean lemma M4 + bounded stand-in (walk)"),
     "C04": ("Local clauses T1/T2/has-id preserved by all six node/edge user actions on a symbolic forest; walk preconditions P1/P2 proved at every call site; exact "
             "rewrite 'ids change exactly below the relabelled node'; the relabel walk body proved against its contract (nested loops, ghost frontier); local=>global by Lean M2. "
-            "Bounded: bulk assignment and cross-check of the walk on all forests <= 5 (6) nodes.",
+            "Base case proved: the bulk assignment at construction labels every node with 1 + its component index (graph minus out-edges of dividing nodes), giving T1 and, by the Lean converse lemma, T2. "
+            "Bounded: cross-check of walk and bulk assignment on all forests <= 5 (6) nodes.",
             "contract-based deductive verification (inductive invariant, ghost descendant closure) + Lean M2/M2'/M3 + bounded stand-ins"),
     "C05": ("Local clauses L1/L2/has-id/max preserved by all six node/edge user actions (after the repair of three genuine defects); local<=>global by Lean M1. "
-            "Walk body proved (lineage rewritten for every node below the start). Bounded: bulk assignment.", "contract-based deductive verification (inductive invariant) + Lean M1 + bounded stand-ins"),
+            "Walk body proved (lineage rewritten for every node below the start). Base case proved: bulk assignment labels every node with 1 + the index of its weakly connected component (L1; L2 by the Lean converse lemma). "
+            "Bounded: cross-check on small forests.", "contract-based deductive verification (inductive invariant, base case and step) + Lean M1 + bounded cross-check"),
     "C06": ("B1 (lookup = nodes carrying the id, as a bag) and B2 (maxima dominate => fresh ids) preserved by every user action; AddNode/DeleteNode bookkeeping proved with "
             "the real helpers inlined; bodies of get_track_neighbors (loop invariant over the lookup list) and has_track_id_at_time proved against their contracts. "
             "The four bookkeeping helpers are proved against bag specifications for node lists of every length, and the relabel walk is proved to re-establish B1 and raise the maxima. "
-            "Bounded: cross-check of the queries and of the walk's lookups on all forests <= 5 nodes with every order of the lookup lists; bulk construction.",
+            "Bounded: cross-check of the queries and of the walk's lookups on all forests <= 5 nodes with every order of the lookup lists. Base case proved: after the bulk assignment the lookups list exactly the nodes per id and the maxima equal the number of ids.",
             "contract-based deductive verification (representation invariant of the lookups, bag model of the lookup lists) + bounded cross-checks"),
     "C07": ("S1/S2 preserved by every primitive (symbolic label video) and the six node/edge user actions; pixel-exact write clauses; inverse restores the array bit for bit. "
             "Bounded: paint-driven UserUpdateSegmentation by seeded random strokes and by every rectangular stroke up to 2x3 on two fixtures (exhaustive).", "contract-based deductive verification over a symbolic label array + bounded stand-in (paint strokes)"),
